@@ -133,6 +133,8 @@ bucket_fromBytes(PyObject *oself, PyObject *state)
     }
   len /= 8;
 
+  PER_USE_OR_RETURN(self, NULL);
+
   if (self->next) {
     Py_DECREF(self->next);
     self->next = NULL;
@@ -141,12 +143,12 @@ bucket_fromBytes(PyObject *oself, PyObject *state)
   if (len > self->size) {
     keys = BTree_Realloc(self->keys, sizeof(KEY_TYPE)*len);
     if (keys == NULL)
-      return NULL;
+      goto err;
     /* the old block may be gone: never leave self->keys pointing at it */
     self->keys = keys;
     values = BTree_Realloc(self->values, sizeof(VALUE_TYPE)*len);
     if (values == NULL)
-      return NULL;
+      goto err;
     self->values = values;
     self->size = len;
   }
@@ -156,6 +158,15 @@ bucket_fromBytes(PyObject *oself, PyObject *state)
 
   self->len = len;
 
+  /* the contents were replaced: announce it, as the Python version does */
+  if (PER_CHANGED(self) < 0)
+    goto err;
+
+  PER_UNUSE(self);
   Py_INCREF(self);
   return (PyObject *)self;
+
+ err:
+  PER_UNUSE(self);
+  return NULL;
 }
